@@ -11,6 +11,9 @@ TRUST = ("Trusted base: go/types, go/ssa and the VTA/CHA call graphs of golang.o
 
 # id -> (technique, claim text, design_ref)
 CLAIMED = {
+ "C15": ("SSA def-use rule for io.Reader/io.Writer buffers; sibling table of the typed readers/writers; dominance rules on Bytes/AllPacketsConsumed; who-may-use rule for the live packet size",
+         "Decides the clauses of the FIFO property whose truth is in the shape of the code: Read fills and Write consumes the caller's buffer, the 21 typed readers/writers are width-consistent siblings over one never-reassigned byte order, Bytes succeeds only with n bytes, Reset clears all state, AllPacketsConsumed always depends on the packet index reaching the end of the queue, and the live packet size only sizes new packets. The step-by-step equality with a byte-slice model over operation histories is not decided.",
+         "DESIGN.md §3 C15"),
  "C01": ("E-OWN who-may-use rule for the transport; SSA dominance/value-identity rules on sendPacket, sendPackets, NewPacket; must-pass-through by path enumeration",
          "Decides structural necessary conditions of well-formed packetisation: only sendPacket writes the transport; message type stamped; EOM derived from the live packet body size exactly on short packets; header length and body trimmed together; the partial-packet test is strict, against the live body size and only for the packet being filled; sent packets are discarded on every exit; a flush includes the partial packet. The zero-packet flush at exact multiples of the body size is a recorded finding. Numeric quantification over lengths and packet sizes is not decided.",
          "DESIGN.md §3 C01"),
